@@ -61,7 +61,7 @@ func init() {
 }
 
 // thorough: every grid point is executed with this many differently seeded stores/configs
-const c08Replicas = 6
+const c08Replicas = 16
 
 var c08Families = []string{"plain", "plain-filtered", "ordered", "ordered-ties", "aggregate", "aggregate-ordered", "delete", "delete-filtered", "aggregate-all", "ordered-2keys", "mget", "plain-sparse", "delete-sparse", "ordered-sparse", "alias-filtered"}
 
